@@ -10,13 +10,17 @@ func init() {
 	vfRegister("VerifC22_bytesBoundary", VerifC22_bytesBoundary)
 }
 
-// Every v < 2^62: shortest encoding, size agreement, prefix preserved, decode returns v with any tail.
+// Every v < 2^62: shortest encoding, size agreement, prefix preserved, decode returns v with any tail (0, 1, 2, 7 or
+// 8 arbitrary bytes after the encoding).
 func VerifC22_roundtrip() {
 	v := vfU64("v")
 	vfAssume(v <= MaxVarint)
 	np := vfLen("prefixlen", 0, 2)
 	prefix := vfBytes("prefix", np)
-	nt := vfLen("taillen", 0, 2)
+	nt := vfChoice("taillen", 5) // 0, 1, 2 bytes, or enough for the buffer to reach 8 / 9 bytes in every size class
+	if nt >= 3 {
+		nt += 4 // 7, 8
+	}
 	tail := vfBytes("tail", nt)
 
 	enc := AppendVarint(append([]byte(nil), prefix...), v)
@@ -73,6 +77,13 @@ func VerifC22_consume() {
 		vfAssert(k == need, "consumed = length class")
 		vfAssert(k <= n, "consumed <= len")
 		vfAssert(v <= MaxVarint, "value < 2^62")
+		// RFC 9000 §16: the value is the big-endian integer of the `need` bytes without the two length bits,
+		// whatever follows them (added after seeded change C22-D: a fast path for buffers of 8 or more bytes)
+		want := uint64(b[0] & 0x3f)
+		for i := 1; i < need; i++ {
+			want = want<<8 | uint64(b[i])
+		}
+		vfAssert(v == want, "value = big-endian integer of the encoding's bytes")
 		re := AppendVarint(nil, v)
 		v2, k2 := ConsumeVarint(re)
 		vfAssert(v2 == v && k2 == len(re), "re-encode decodes to same value")
